@@ -15,7 +15,7 @@ Trace == ndJsonDeserialize(TraceFile)
 
 VARIABLES l, tid, drift, viol,
           mem,     \* membership of the scenario: record "node" -> party
-          parts,   \* participants (node ids) the stub synchroniser answers with
+          parts,   \* [call -> participants (node ids) the stub synchroniser answers with for that call]
           olive,   \* observed: calls started and not yet returned  {<<c, kind, topic>>}
           ostage   \* observed: [c -> last signal]
 
@@ -23,7 +23,7 @@ tvars == <<vars, l, tid, drift, viol, mem, parts, olive, ostage>>
 Line == Trace[l]
 Rng(s) == {s[i] : i \in DOMAIN s}
 
-TInit == Init /\ l = 1 /\ tid = -1 /\ drift = "" /\ viol = {} /\ mem = <<>> /\ parts = {} /\ olive = {} /\ ostage = <<>>
+TInit == Init /\ l = 1 /\ tid = -1 /\ drift = "" /\ viol = {} /\ mem = <<>> /\ parts = [c \in Calls |-> {}] /\ olive = {} /\ ostage = <<>>
 
 PartyOf(n) == mem[ToString(n)]
 SortedParties(P) == SetToSortSeq({PartyOf(n) : n \in P}, LAMBDA a, b : a < b)
@@ -39,7 +39,9 @@ Check(ms) ==
 Reset ==
   /\ Line.e = "reset"
   /\ calls' = [c \in Calls |-> NoCall] /\ syncs' = {} /\ rbcs' = {} /\ cls' = {} /\ dkg' = FALSE /\ nops' = 0 /\ hist' = <<>>
-  /\ tid' = Line.t /\ drift' = "" /\ viol' = {} /\ mem' = Line.membership /\ parts' = Rng(Line.participants)
+  /\ tid' = Line.t /\ drift' = "" /\ viol' = {}
+  /\ mem' = IF "membership" \in DOMAIN Line THEN Line.membership ELSE <<>>
+  /\ parts' = [c \in Calls |-> {}]
   /\ olive' = {} /\ ostage' = <<>>
 
 TablesDiff(tb, e) ==
@@ -86,14 +88,14 @@ Common(e, c, isProbeEnd) ==
        <<"PreconditionErrorReturned",
            (Line.e = "step" /\ Line.label = "s1" /\ plan.s1 = "ok" /\ plan.prep \in {"share", "dup"}) => (ret /\ Line.res = "err")>>,
        \* --- C06
-       <<"InitGetsSortedPartyIds", passedS1 => (Line.initn = 1 /\ Line.initp = SortedParties(parts'))>>,
+       <<"InitGetsSortedPartyIds", passedS1 => (Line.initn = 1 /\ Line.initp = SortedParties(parts[c]))>>,
        <<"DuplicatePartyRefused",
            (Line.e = "step" /\ Line.label = "s1" /\ plan.s1 = "ok" /\ plan.prep = "dup") => (ret /\ Line.res = "err" /\ Line.initn = 0)>>
      })
 
 CallEv ==
   /\ Line.e = "call"
-  /\ parts' = IF Line.plan.prep = "dup" THEN Rng(Line.dupparticipants) ELSE Rng(Line.participants)
+  /\ parts' = [parts EXCEPT ![Line.c] = IF Line.plan.prep = "dup" THEN Rng(Line.dupparticipants) ELSE Rng(Line.participants)]
   /\ Common(CallEff(Line.c, Line.kind, Line.topic, Line.plan), Line.c, FALSE)
   /\ UNCHANGED <<tid, mem>>
 
@@ -125,8 +127,10 @@ LateEv ==
 InjectEv ==
   /\ Line.e = "inject"
   /\ LET m == [kind |-> Line.kind, topic |-> Line.topic, from |-> Line.from]
+         owners == {c \in Calls : Live(c) /\ calls[c].topic = m.topic}
+         sparts == UNION {parts[c] : c \in owners}      \* participants of the live session on that topic (if any)
          pred == IF m.kind = "mpc"
-                   THEN IF m.topic \in rbcs /\ m.topic \in cls /\ m.from \in parts THEN {c \in OwnerOf(m.topic) : calls[c].topic = m.topic} ELSE {}
+                   THEN IF m.topic \in rbcs /\ m.topic \in cls /\ m.from \in sparts THEN {c \in OwnerOf(m.topic) : calls[c].topic = m.topic} ELSE {}
                    ELSE IF m.topic \in syncs THEN OwnerOf(m.topic) ELSE {}
          obsBE == {x.c : x \in Rng(Line.onmsg)}
          obsSY == Rng(Line.synch)
@@ -136,26 +140,33 @@ InjectEv ==
                     ELSE TablesDiff(Line.tables, St))
         /\ Check({<<"NoPanic", Line.panic = "">>,
                   <<"LateTrafficNoEffect", ~liveOnTopic => (Line.onmsg = <<>> /\ Line.synch = <<>> /\ Line.sends = <<>>)>>,
-                  <<"ForeignNeverReachesInstance", (m.kind = "mpc" /\ m.from \notin parts) => Line.onmsg = <<>>>>,
+                  <<"ForeignNeverReachesInstance", (m.kind = "mpc" /\ m.from \notin sparts) => Line.onmsg = <<>>>>,
                   <<"OnMsgAttributedToPartyOfSender",
-                      \A x \in Rng(Line.onmsg) : m.from \in parts /\ x.from = PartyOf(m.from)>>})
+                      \A x \in Rng(Line.onmsg) : m.from \in sparts /\ x.from = PartyOf(m.from)>>})
   /\ UNCHANGED <<vars, tid, mem, parts, olive, ostage>>
 
 \* the back end of call c emits a point-to-point message to party Line.to (0: a broadcast)
 EmitEv ==
   /\ Line.e = "emit"
   /\ LET mpc == {x \in Rng(Line.sends) : x.kind = "mpc"}
-         others == parts \ {Line.self} IN
+         others == parts[Line.c] \ {Line.self} IN
      /\ SetDrift(IF Cardinality(mpc) # 1 THEN "emit produced no single send" ELSE "")
      /\ Check({<<"NoPanic", Line.panic = "">>,
                <<"P2PGoesToTheSessionReplica",
-                   Line.to # 0 => (\A x \in mpc : x.to = <<NodeOfParty(Line.to, parts)>>) /\ Cardinality(mpc) = 1 /\ Len(SelectSeq(Line.sends, LAMBDA x : x.kind = "mpc")) = 1>>,
+                   Line.to # 0 => (\A x \in mpc : x.to = <<NodeOfParty(Line.to, parts[Line.c])>>) /\ Cardinality(mpc) = 1 /\ Len(SelectSeq(Line.sends, LAMBDA x : x.kind = "mpc")) = 1>>,
                <<"BroadcastGoesToTheParticipants",
                    Line.to = 0 => (\A x \in mpc : Rng(x.to) = others /\ Len(x.to) = Cardinality(others)) /\ Cardinality(mpc) = 1>>})
+  /\ UNCHANGED <<vars, tid, mem, parts, olive, ostage>>
+
+\* the process died (a panic in a goroutine of the code under test)
+CrashEv ==
+  /\ Line.e = "crash"
+  /\ SetDrift("process crashed")
+  /\ Check({<<"NoPanic", FALSE>>})
   /\ UNCHANGED <<vars, tid, mem, parts, olive, ostage>>
 
 EndEv == Line.e = "end" /\ PrintT(<<"END", ToJson([t |-> tid, drift |-> drift])>>) /\ UNCHANGED <<vars, tid, drift, viol, mem, parts, olive, ostage>>
 
 TNext == /\ l <= Len(Trace) /\ l' = l + 1
-         /\ (Reset \/ CallEv \/ StepEv \/ CancelEv \/ LateEv \/ InjectEv \/ EmitEv \/ EndEv)
+         /\ (Reset \/ CallEv \/ StepEv \/ CancelEv \/ LateEv \/ InjectEv \/ EmitEv \/ CrashEv \/ EndEv)
 =============================================================================
